@@ -145,6 +145,14 @@ DEGENERATE = {
     "no-baseline-sqrt": lambda n: np.sqrt(np.linspace(0, 1, n)) * 1e-9,
     "no-baseline-tanh": lambda n: np.tanh(np.linspace(0, 3, n)) * 1e-9,
     "no-baseline-linear": lambda n: np.linspace(0, 1, n) * 1e-9,
+    # a short approach (baseline + indentation) followed by a retract part
+    # of the same length: the approach part is what an estimator sees
+    "short-approach+retract": lambda n: np.concatenate([
+        np.zeros(n // 2), np.linspace(0, 1e-9, n - n // 2 + 1)[1:],
+        np.linspace(1e-9, 0, n)]),
+    "noise-only+retract": lambda n: np.concatenate([
+        1e-10 * np.sin(np.arange(n) * 1.7), [2e-10],
+        1e-10 * np.sin(np.arange(n) * 2.3)]),
 }
 DEG_LENGTHS = [1, 2, 3, 4, 5, 6, 7, 8, 12, 60, 300]
 
@@ -182,6 +190,14 @@ def degenerate_case(case):
     # of the data it has seen
     seen = poc.compute_preproc_clip_approach(f.copy()) \
         if "clip_approach" in mfunc.preprocessing else f.copy()
+    if seen.size == 0 or np.ptp(seen) == 0:
+        # nothing an estimator could work on: the fallback itself
+        if idx != seen.size // 2:
+            viol("fallback-middle", f"{case['shape']}:n={case['n']}",
+                 f"the data the estimator works on ({seen.size} samples) "
+                 f"are degenerate, but compute_poc gave {idx}, not their "
+                 f"middle {seen.size // 2}")
+        return out, ("fallback",)
     try:
         direct = mfunc(seen.copy())
         if isinstance(direct, float) and np.isnan(direct):
